@@ -88,6 +88,28 @@ class Check:
         res["out"] = out
         return res
 
+    def schedules_from_graph(self, module, cfg, maxlen=60, maxwalks=None, shuffle=True, skip="", timeout=900):
+        """TLC -dump dot,actionlabels of an exhaustive config -> edge-covering action schedules (engine A)."""
+        dot = os.path.join(self.tmp, "graph-%s.dot" % cfg.replace(".cfg", ""))
+        res = self.tlc_mc(module, cfg, extra=["-dump", "dot,actionlabels", dot], timeout=timeout, count=False, workers=4)
+        out = os.path.join(self.tmp, "sched-%s.jsonl" % cfg.replace(".cfg", ""))
+        cmd = [sys.executable, os.path.join(ROOT, "tools", "graph2sched.py"), dot, out, "--maxlen", str(maxlen), "--seed", str(self.seed)]
+        if maxwalks:
+            cmd += ["--maxwalks", str(maxwalks)]
+        if shuffle:
+            cmd += ["--shuffle", "1"]
+        if skip:
+            cmd += ["--skip", skip]
+        p = subprocess.run(cmd, stdout=subprocess.PIPE, stderr=subprocess.PIPE, text=True)
+        if p.returncode != 0:
+            raise Machinery("graph2sched failed: " + p.stderr[-2000:])
+        info = json.loads(p.stdout.strip().splitlines()[-1])
+        os.remove(dot)
+        info.update(graph_states=res.get("distinct"), cfg=cfg)
+        self.extra.setdefault("graph_replay", []).append(info)
+        log("graph %s/%s: %s" % (module, cfg, info))
+        return out, info
+
     # ------------------------------------------------------------------ Go
     def go_build(self, cmd, race=False, tags="verif"):
         out = os.path.join(self.tmp, "bin-" + cmd.replace("/", "_") + ("-race" if race else ""))
